@@ -85,8 +85,9 @@ from .ast import (
 )
 
 def quote(s):
-    assert s.replace('_', '').replace('.', '').replace('/', '').isalnum(), \
-        'Only use quote() with names or IDs in Stone.'
+    # NOTE: This is also applied to text taken from doc references and to
+    # identifiers (which may contain dashes), so no assumption can be made
+    # about the characters of s.
     return "'%s'" % s
 
 def parse_data_types_from_doc_ref(api, doc, namespace_context, ignore_missing_entries=False):
@@ -1431,12 +1432,22 @@ class IRGenerator:
                             *loc)
                     if isinstance(env[type_name], Environment):
                         # Handle reference to field in imported namespace.
-                        namespace_name, type_name, field_name = val.split('.', 2)
+                        parts = val.split('.', 2)
+                        if len(parts) != 3 or parts[1] not in env[type_name]:
+                            raise InvalidSpec(
+                                'Bad doc reference to field %s: expected '
+                                'namespace.type.field.' % quote(val), *loc)
+                        namespace_name, type_name, field_name = parts
                         data_type_to_check = env[namespace_name][type_name]
-                    elif isinstance(env[type_name], Alias):
-                        data_type_to_check = env[type_name].data_type
                     else:
                         data_type_to_check = env[type_name]
+                    if isinstance(data_type_to_check, Alias):
+                        data_type_to_check, _ = unwrap_aliases(data_type_to_check)
+                    if not isinstance(data_type_to_check, (Struct, Union)):
+                        raise InvalidSpec(
+                            'Bad doc reference to field %s: %s is not a '
+                            'struct or union.' % (quote(val), quote(type_name)),
+                            *loc)
                     if not any(field.name == field_name
                                for field in data_type_to_check.all_fields):
                         raise InvalidSpec(
@@ -1468,10 +1479,18 @@ class IRGenerator:
                             "Unknown doc reference to namespace '%s'." %
                             namespace_name, *loc)
                     env_to_check = env[namespace_name]
+                    if not isinstance(env_to_check, Environment):
+                        raise InvalidSpec(
+                            'Doc reference to route: %s is not a namespace.' %
+                            quote(namespace_name), *loc)
                 else:
                     env_to_check = env
 
-                route_name, version = parse_route_name_and_version(val)
+                try:
+                    route_name, version = parse_route_name_and_version(val)
+                except ValueError as e:
+                    raise InvalidSpec(
+                        'Bad doc reference to route: %s.' % e.args[0], *loc)
                 if route_name not in env_to_check:
                     raise InvalidSpec(
                         'Unknown doc reference to route {}.'.format(quote(route_name)), *loc)
@@ -1492,6 +1511,10 @@ class IRGenerator:
                             "Unknown doc reference to namespace '%s'." %
                             namespace_name, *loc)
                     env_to_check = env[namespace_name]
+                    if not isinstance(env_to_check, Environment):
+                        raise InvalidSpec(
+                            'Doc reference to type: %s is not a namespace.' %
+                            quote(namespace_name), *loc)
                 else:
                     env_to_check = env
                 if val not in env_to_check:
